@@ -312,10 +312,10 @@ pub fn run(ctx: &mut Ctx) {
     let avoid = ctx.avoid(crate::props::c05::SIG_G) && ctx.is_generate();
     ctx.campaign(
         "grammar",
-        CampaignCfg::new(t.pick(30_000, 1_000_000)).shards(16),
+        CampaignCfg::new(t.pick(30_000, 3_000_000)).shards(16),
         || (addr_sel_strategy(true), prop::collection::vec(addr_sel_strategy(true), 0..3)).prop_map(|(addr, listen)| GrammarCase { addr, listen }),
         run_grammar,
     );
-    ctx.campaign("histories", CampaignCfg::new(t.pick(6_000, 200_000)).shards(16).shrink_iters(1500), move || c10_strategy(70), move |h: &History| run_case_with(h, avoid));
+    ctx.campaign("histories", CampaignCfg::new(t.pick(6_000, 600_000)).shards(16).shrink_iters(1500), move || c10_strategy(70), move |h: &History| run_case_with(h, avoid));
     let _ = (limit_strategy, N_PEERS);
 }
